@@ -51,12 +51,12 @@ def expected : List (String × String) := [
   ("Fortran2003.Block.match", "21e7d0ebcfa694dc"),
   ("Fortran2003.Char_Expr.match", "39987e5f704060ea"),
   ("Fortran2003.Comment.tostr", "bcf9419403db7235"),
-  ("Fortran2003.Cray_Pointer_Decl.match", "82fb23c2f665e8ef"),
+  ("Fortran2003.Cray_Pointer_Decl.match", "b918c88c4fdc4c6c"),
   ("Fortran2003.Cray_Pointer_Decl.tostr", "21fd4ccf9b0b5900"),
   ("Fortran2003.Cray_Pointer_Stmt.match", "9dd869bac8c3d921"),
   ("Fortran2003.Data_Edit_Desc.match", "cd3b76680865455e"),
   ("Fortran2003.Data_Edit_Desc.tostr", "d26ceaf536f25f85"),
-  ("Fortran2003.Data_Edit_Desc_C1002.match", "a08ba33a374e27f7"),
+  ("Fortran2003.Data_Edit_Desc_C1002.match", "82290e779df5e29a"),
   ("Fortran2003.Data_Edit_Desc_C1002.tostr", "2d4dcaf870d5351d"),
   ("Fortran2003.Declaration_Type_Spec.match", "4dcc3243fe90758b"),
   ("Fortran2003.Declaration_Type_Spec.tostr", "a31ba6bff2464def"),
@@ -107,7 +107,7 @@ def expected : List (String × String) := [
   ("Fortran2003.Type_Param_Decl.match", "27d42a01b846a2c7"),
   ("Fortran2003.Type_Param_Def_Stmt.match", "a3909de5e1982c02"),
   ("Fortran2003.Type_Param_Def_Stmt.tostr", "c9a1616e0f7894ec"),
-  ("Fortran2003.Use_Stmt._match", "260a8a7e68e25703"),
+  ("Fortran2003.Use_Stmt._match", "9810aeaaf349bf58"),
   ("Fortran2003.Use_Stmt.match", "c79dd67076a60e15"),
   ("Fortran2003.Use_Stmt.tostr", "6771ff9473433116"),
   ("Fortran2003.Wait_Spec.match", "71d14cdde59a344a"),
